@@ -301,6 +301,64 @@ func checkC20(c *Ctx, r *Report) {
 							why = "EnsureAllowed is called with a different EndpointMethod than the one whose Func is registered"
 						}
 					})
+					// a method value as the hook (methodGate{method}.ensureAllowed): the method calls EnsureAllowed with a field
+					// of its receiver, and the receiver bound here was built with the registered method in that field
+					if m, _ := funcValueBody(hook); !okHook && m != nil && m != hf && len(m.Params) > 0 && len(hook.Bindings) == 1 {
+						eachCall(m, func(hc ssa.CallInstruction, hn string) {
+							if hn != apiPkg+".EnsureAllowed" {
+								return
+							}
+							root2, pth2 := fieldPath(hc.Common().Args[1])
+							if (resolveVal(root2) != ssa.Value(m.Params[0]) && cellValue(root2) != ssa.Value(m.Params[0])) || len(pth2) != 1 {
+								why = "EnsureAllowed is called with something other than a field of the hook's receiver"
+								return
+							}
+							// the receiver value bound at the registration: a struct built in place
+							var lit *ssa.Alloc
+							switch b := hook.Bindings[0].(type) {
+							case *ssa.UnOp:
+								lit, _ = b.X.(*ssa.Alloc)
+							case *ssa.Alloc:
+								lit = b
+							}
+							same := false
+							if lit != nil {
+								if refs := lit.Referrers(); refs != nil {
+									for _, ref := range *refs {
+										if fa, isFA := ref.(*ssa.FieldAddr); isFA {
+											if fv, _, is := fieldOf(fa); is && fname(fv) == pth2[0] {
+												for _, st := range storesTo(fa) {
+													if sameRootCell(st.Val, mroot) || sameVal(st.Val, mroot) {
+														same = true
+													}
+													for _, cand := range []ssa.Value{st.Val, resolveVal(st.Val)} {
+														if ld, isLd := cand.(*ssa.UnOp); isLd && ld.Op == token.MUL && (ld.X == mroot || resolveVal(ld.X) == resolveVal(mroot)) {
+															same = true // a copy of the very element whose Func is registered
+														}
+													}
+												}
+											}
+										}
+									}
+								}
+							}
+							if !same {
+								why = "EnsureAllowed is called with a different EndpointMethod than the one whose Func is registered"
+								return
+							}
+							okHook, why = true, ""
+							eachInstr(m, func(in ssa.Instruction) {
+								if ret, ok := in.(*ssa.Return); ok && !isRecoverReturn(ret) {
+									for i, rv := range ret.Results {
+										if e, ok := rv.(*ssa.Extract); !ok || e.Tuple != hc.Value() || e.Index != i {
+											okHook = false
+											why = "hook does not return EnsureAllowed's result unchanged"
+										}
+									}
+								}
+							})
+						})
+					}
 					if !okHook && why == "" {
 						why = "hook does not call EnsureAllowed"
 					}
